@@ -397,6 +397,50 @@ func (c *c39State) halfOpen(rt *rapid.T, w *nsWorld, h *nsHist) {
 	if idx == 0 {
 		return
 	}
+	// Optionally a THIRD host answers in y's place: over its own tunnel with the relay it sends a
+	// CreateRelayResponse that names the index the relay allocated on y's tunnel. y has agreed to
+	// nothing, so the relay must still not forward x's traffic to y.
+	if len(hosts) >= 3 && rapid.Bool().Draw(rt, "ho.forgedAnswer") {
+		var jY uint32
+		for _, t := range r.allTunnels() {
+			if len(t.vpnAddrs) > 0 && t.vpnAddrs[0] == w.specs[yi].nets[0].Addr() {
+				t.relayState.RLock()
+				if rel := t.relayState.relayForByAddr[w.specs[xi].nets[0].Addr()]; rel != nil {
+					jY = rel.LocalIndex
+				}
+				t.relayState.RUnlock()
+			}
+		}
+		var zs []int
+		for _, k := range hosts {
+			if k != xi && k != yi {
+				zs = append(zs, k)
+			}
+		}
+		zi := zs[rapid.IntRange(0, len(zs)-1).Draw(rt, "ho.z")]
+		z := w.nodes[zi]
+		hz := z.ctrl.f.hostMap.QueryVpnAddr(w.specs[c.relayIdx].nets[0].Addr())
+		if jY != 0 && hz != nil && hz.ConnectionState != nil {
+			resp := NebulaControl{Type: NebulaControl_CreateRelayResponse, InitiatorRelayIndex: jY, ResponderRelayIndex: rapid.Uint32Range(1, 1<<31).Draw(rt, "ho.respIdx"),
+				RelayFromAddr: netAddrToProtoAddr(w.specs[xi].nets[0].Addr()), RelayToAddr: netAddrToProtoAddr(w.specs[yi].nets[0].Addr())}
+			rb, _ := resp.Marshal()
+			z.ctrl.f.SendMessageToHostInfo(header.Control, 0, hz, rb, make([]byte, 12), make([]byte, mtu))
+			w.s.settle()
+			for _, p := range w.s.takeInflight() {
+				if p.Src == z.idx && p.To == r.udpAddr {
+					h.deliverPkt(p)
+				}
+			}
+			w.s.settle()
+			w.s.takeInflight()
+			if c.answered == nil {
+				c.answered = map[int]bool{}
+			}
+			c.answered[zi] = true
+			h.note("%s answers the relay's request to %s in its place (CreateRelayResponse naming relay index %d)", z.name, w.specs[yi].name, jY)
+			vk.Label(w.pidLabel(), "third-host-answers-a-relay-request")
+		}
+	}
 	x.ctrl.f.SendVia(hi, &Relay{RemoteIndex: idx}, []byte("half-open-probe-0123456789abcdef"), make([]byte, 12), make([]byte, mtu), false, 0)
 	w.s.settle()
 	c.hostileData++
